@@ -92,6 +92,7 @@ func RunOne(t *testing.T, mk func() World, tape *Tape, lim Limits, keepLog bool)
 		}()
 		synctest.Test(t, func(t *testing.T) {
 			s = newSim(tape, keepLog)
+			s.TB = t
 			w := mk()
 			drive(s, w, lim)
 		})
